@@ -14,7 +14,7 @@ import Nstd.Args.Kernel
     io <streams> <n> <seed> <code>          → io ok=1 pipes=<p>
     exit <code>                             → exit ok=1
     p <op> ...                              → p ok=<0|1> st=<running><out><err><in>      (one Process object)
-         op = new | start <code> | open <mask> <code> | join | kill | close <mask> | running | read3 <mask>
+         op = new | start <code> | open <mask> <code> | openfail <mask> | join | kill | close <mask> | running | read3 <mask>
     killtest <mask>                         → kill ok=1
     fds                                     → fds          (the harness adds the number of leaked descriptors)
     execfail <path|empty|blank> <streams>   → xf ok=1 pipes=<p>   (an executable that cannot be started)
@@ -188,6 +188,7 @@ def parsePOp : List String → Option POp
   | ["new"] => some .destroy
   | ["start", c] => c.toNat?.map (fun _ => .start)
   | ["open", m, c] => do let m ← m.toNat?; let _ ← c.toNat?; pure (.openp m)
+  | ["openfail", m] => m.toNat?.map .openFailed
   | ["join"] => some .join
   | ["kill"] => some .kill
   | ["close", m] => m.toNat?.map .close
